@@ -297,13 +297,10 @@ def julianDateToDatetime(julian_date):
         datetime: Converted ``datetime`` object.
     """
     year, month, day, hour, minute, second = julian_date.calendar_date
-    date_time = datetime(int(year), int(month), int(day), int(hour), int(minute), int(second))
     # Handle floating-point error in JulianDate -> calendar date/time conversion
     # [NOTE] This implementation assumes that time steps will always be multiples of whole seconds.
-    if int(second) != second and round(second) == 60:
-        date_time += timedelta(seconds=1)
-
-    return date_time
+    date_time = datetime(int(year), int(month), int(day), int(hour), int(minute))
+    return date_time + timedelta(seconds=int(round(second)))
 
 
 class ScenarioTime(float):
